@@ -139,3 +139,20 @@ fn d42_moov_drops_mvex() {
     let out = MoovBox::read_box(&mut c, h.size).unwrap();
     assert_eq!(out.mvex, moov.mvex);
 }
+
+/// D-43: TrakBox neither sizes nor writes its meta child
+#[test]
+fn d43_trak_drops_meta() {
+    let mut trak = TrakBox::default();
+    trak.tkhd.track_id = 1;
+    trak.mdia.minf.stbl.stco = Some(StcoBox::default());
+    trak.meta = Some(MetaBox::Mdir { ilst: None });
+    let mut v = Vec::new();
+    let n = trak.write_box(&mut v).unwrap();
+    assert_eq!(n as usize, v.len());
+    assert_eq!(trak.box_size() as usize, v.len());
+    let mut c = Cursor::new(v);
+    let h = BoxHeader::read(&mut c).unwrap();
+    let out = TrakBox::read_box(&mut c, h.size).unwrap();
+    assert_eq!(out.meta, trak.meta);
+}
